@@ -384,10 +384,11 @@ structure Parsed where
   deriving Repr, DecidableEq
 
 /-- `MpegSectionTable.parse` + `BinarySignal.parse_payload`
-(section_table.py:32-47, binarysignal.py:63-92).  `none` = an exception
-(`ReadError`, or a command/descriptor type outside the model). -/
-def Signal.parse (data : Bits) : Option Parsed := do
-  let r : Rd := ⟨0, data⟩
+(section_table.py:32-43, binarysignal.py:63-92) up to and including
+`r.read(32, 'crc')`; returns the reader so that `Signal.parse` can compute
+`crc_valid` over the bytes consumed.  `none` = an exception (`ReadError`, or a
+command/descriptor type outside the model). -/
+def Signal.parseRd (r : Rd) : Option (Parsed × Rd) := do
   let (tableId, r) ← r.get 8
   let (ssi, r) ← r.getBool
   let (pi, r) ← r.getBool
@@ -410,13 +411,20 @@ def Signal.parse (data : Bits) : Option Parsed := do
   let (ds, r) ← parseDescriptors (r.rest.length + 1) endpos r
   let r ← (if enc then (r.get 32).map (·.2) else some r)
   let (crc, r) ← r.get 32
-  some { sig := { tableId, sectionSyntaxIndicator := ssi, privateIndicator := pi, sapType := sap,
-                  protocolVersion := pv, encryptedPacket := enc, encryptionAlgorithm := alg,
-                  ptsAdjustment := adj, cwIndex := cw, tier, command := cmd,
-                  descriptors := ds.map (·.1) },
-         sectionLength, spliceCommandLength := cmdLen, spliceCommandType := cmdType,
-         descriptorLoopLength := loopLen, descriptorLengths := ds.map (·.2), crc,
-         crcValid := Crc32.crc32 (data.take r.pos) == 0 }
+  some ({ sig := { tableId, sectionSyntaxIndicator := ssi, privateIndicator := pi, sapType := sap,
+                   protocolVersion := pv, encryptedPacket := enc, encryptionAlgorithm := alg,
+                   ptsAdjustment := adj, cwIndex := cw, tier, command := cmd,
+                   descriptors := ds.map (·.1) },
+          sectionLength, spliceCommandLength := cmdLen, spliceCommandType := cmdType,
+          descriptorLoopLength := loopLen, descriptorLengths := ds.map (·.2), crc,
+          crcValid := false }, r)
+
+/-- `BinarySignal.parse(src, size)`: the fields plus (section_table.py:44-46)
+`crc_valid = Crc32Mpeg2(data[position : r.bytepos()]) == 0` – the CRC of every
+byte consumed, the `crc` field included. -/
+def Signal.parse (data : Bits) : Option Parsed :=
+  (Signal.parseRd ⟨0, data⟩).map fun x =>
+    { x.1 with crcValid := Crc32.crc32 (data.take x.2.pos) == 0 }
 
 /-! ### `Scte35Events.create_binary_signal` -/
 
